@@ -31,7 +31,7 @@ static const acetime_t T0 = 500000000;
 static void p1(const Args& a, Counters& c) {
   // phases handled by this shard
   uint64_t n = 0, wrapped16 = 0;
-  int pstep = a.thorough ? 1 : 17;
+  int pstep = 1;   // both tiers: all 65,536 phases (the complete one-step relation costs ~10 s on 16 cores)
   std::vector<uint32_t> phases;
   for (uint32_t p = (a.seed % pstep); p < 65536; p += pstep) phases.push_back(p);
   if (!a.thorough) for (uint32_t p : {0u, 1u, 535u, 536u, 999u, 1000u, 64535u, 64536u, 65535u, 32768u}) phases.push_back(p);
